@@ -287,6 +287,7 @@ def configurations(quick):
         _conf('update(A)||update(B) limit fits one', [[u('A', b'xxxx')], [u('B', b'yyy')]],
               files={'A': A0, 'B': B0}, max_memory=4),
         _conf('get||get uncached', [[g('A')], [g('A')]]),
+        _conf('get(A)||get(B) limit fits one', [[g('A')], [g('B')]], files={'A': A0, 'B': B0}, max_memory=4),
         _conf('get||unload', [[g('A')], [x('A')]]),
         _conf('update||unload', [[u('A', b'xxxx')], [x('A')]]),
         _conf('get;get||update', [[g('A'), g('A')], [u('A', b'xxxx')]]),
